@@ -943,3 +943,8 @@ mod test {
         }
     }
 }
+
+#[cfg(kani)]
+mod verif_kani {
+    include!(concat!(env!("IPA_VERIF_DIR"), "/kani/ordering_sender.rs"));
+}
